@@ -66,4 +66,19 @@ REFACTORS = [
     # S17: gossip handler: verify() matched
     ("s17", N + "service.rs", "        if !announcement.verify() {\n            return Err(session::Error::Misbehavior);\n        }",
      "        match announcement.verify() {\n            true => {}\n            false => return Err(session::Error::Misbehavior),\n        }", 1),
+    # S18: evaluate closure with the two prune conditions joined
+    ("s18", "crates/radicle-cob/src/change_graph.rs", "                if !entry.valid_signatures() {\n                    return ControlFlow::Break(());\n                }\n                // Apply the entry to the state, and if there's an error, prune that branch.\n                if object\n                    .apply(entry, siblings.map(|(k, n)| (k, &n.value)), store)\n                    .is_err()\n                {\n                    return ControlFlow::Break(());\n                }\n                ControlFlow::Continue(())",
+     "                if !entry.valid_signatures()\n                    || object\n                        .apply(entry, siblings.map(|(k, n)| (k, &n.value)), store)\n                        .is_err()\n                {\n                    return ControlFlow::Break(());\n                }\n                ControlFlow::Continue(())", 1),
+    # S19: Storage::clean with an early return for the removal case
+    ("s19", R + "storage/git.rs", "        if has_sigrefs {\n            repo.clean(&self.info.key)\n        } else {\n            let remotes = repo.remote_ids()?.collect::<Result<_, _>>()?;\n            repo.remove()?;\n            Ok(remotes)\n        }",
+     "        if !has_sigrefs {\n            let remotes = repo.remote_ids()?.collect::<Result<_, _>>()?;\n            repo.remove()?;\n            return Ok(remotes);\n        }\n        repo.clean(&self.info.key)", 1),
+    # S20: try_fetch: the two session checks in the other order
+    ("s20", N + "service.rs", "        if !session.is_connected() {\n            // This can happen if a session disconnects in the time between asking for seeds to\n            // fetch from, and initiating the fetch from one of those seeds.\n            return Err(TryFetchError::SessionNotConnected);\n        }\n        if session.is_at_capacity() {\n            // If we're already fetching multiple repos from this peer.\n            return Err(TryFetchError::SessionCapacityReached);\n        }",
+     "        if session.is_at_capacity() {\n            // If we're already fetching multiple repos from this peer.\n            return Err(TryFetchError::SessionCapacityReached);\n        }\n        if !session.is_connected() {\n            return Err(TryFetchError::SessionNotConnected);\n        }", 1),
+    # S21: is_visible_to as an if-let
+    ("s21", R + "identity/doc.rs", "        match &self.visibility {\n            Visibility::Public => true,\n            Visibility::Private { allow } => allow.contains(did) || self.is_delegate(did),\n        }",
+     "        if let Visibility::Private { allow } = &self.visibility {\n            return allow.contains(did) || self.is_delegate(did);\n        }\n        true", 1),
+    # S22: accept(): signature result matched
+    ("s22", R + "cob/identity.rs", "        if current\n            .verify_signature(&author, &signature, self.blob)\n            .is_err()\n        {\n            return Err(ApplyError::InvalidSignature(author, self.blob));\n        }\n        if self",
+     "        match current.verify_signature(&author, &signature, self.blob) {\n            Ok(()) => {}\n            Err(_) => return Err(ApplyError::InvalidSignature(author, self.blob)),\n        }\n        if self", 1),
 ]
